@@ -173,10 +173,13 @@ def run_project_check(prop, tier):
         if "harness_error" in r:
             raise HarnessError("task %s: %s" % (r["tid"], r["harness_error"]))
     nondet = []
+    probe_pairs = 0
     for p in probes:
         a, b = results.get(p["tid"]), results.get(p["tid"][1:])
-        if a is not None and b is not None and a["digest"] != b["digest"]:
-            nondet.append("task %s gave different history digests in two executions" % p["tid"][1:])
+        if a is not None and b is not None:
+            probe_pairs += 1
+            if a["digest"] != b["digest"]:
+                nondet.append("task %s gave different history digests in two executions" % p["tid"][1:])
     stats = {}
     mine, other = [], 0
     nruns = 0
@@ -269,6 +272,8 @@ def run_project_check(prop, tier):
             raise HarnessError("fidelity tier: the in-process kill model disagrees with a real SIGKILL: %s" % buf.getvalue()[-800:])
     wall = time.monotonic() - t0
     cov = project_coverage(prop, tier, stats, nruns, other, samples, pstats, wall, known_hit)
+    cov["determinism_probe"] = {"tasks_executed_twice_in_this_batch": probe_pairs, "history_digest_mismatches": len([m for m in nondet if m.startswith("task ")]),
+                                "operations_executed_twice_on_the_same_project": stats.get("twin_checks", 0), "of_which_differed": stats.get("twin_nondeterministic", 0)}
     if fid:
         cov["fidelity_tier_real_sigkill"] = fid
     core.write_evidence(prop, tier, base, LEVEL.get(prop, "exploration"), cov, wall, nviol, ASSUMPTIONS_COMMON + ASSUMPTIONS_PROJECT)
@@ -288,8 +293,9 @@ def project_coverage(prop, tier, stats, nruns, other, samples, pstats, wall, kno
             cells["cli|" + k] = v
         evaluations = sum(stats.get("faults_fired", {}).values()) + sum(stats.get("cli_cells", {}).values())
         rule = ("quick: for each of N generated base scenarios, EVERY I/O and conversion seam event of the operation under test x every fault kind applicable "
-                "to that event (IOERR with 4 prefix cuts at writes, KILL with 3 cuts, INTERRUPT, ALLOC, CONVERT) plus 24 step indices x {INTERRUPT, ALLOC, KILL}; "
-                "plus seeded random histories (<=7 ops) with faults attached to operations, plus the invocation table. An evaluation is one fault that FIRED "
+                "to that event (one-shot and persistent IOERR with 4 prefix cuts at writes, KILL with 3 cuts, INTERRUPT, ALLOC, CONVERT) plus 24 step indices x {INTERRUPT, ALLOC, KILL}; "
+                "plus seeded random histories (<=7 ops) with faults attached to operations, plus the invocation table (13 rows, a seeded sample - thorough: all - of the 2187 presence "
+                "patterns of the sync options, spelling rows for gen). A fifth of the runs execute under python -O. An evaluation is one fault that FIRED "
                 "(or one invocation-table row); a cell is (op kind, target kind, write path create|append|replace, fault kind@seam, write in flight?) for files named "
                 "on the command line; distinct_nontrivial counts distinct cells in which the fault fired.")
     elif prop in ("C10", "C09"):
@@ -335,7 +341,6 @@ def project_coverage(prop, tier, stats, nruns, other, samples, pstats, wall, kno
         "workers": pstats.get("workers"),
         "runs_under_python_O": pstats.get("optimized_runs", 0),
         "tasks_skipped_by_budget": pstats.get("skipped"),
-        "determinism_probe": "tasks re-executed in the same batch produced identical history digests",
         "real_components": ["doctrans (all modules)", "black", "ast", "argparse", "meta.asttools.cmp_ast", "tmpfs files"],
         "simulated_components": ["OS process boundary", "file objects (proxy)", "Ctrl-C / MemoryError (raised from the step seam)", "SIGKILL (I/O freeze + buffer loss)",
                                  "ENOSPC/EIO/EACCES (raised by the seam)", "the user/editor (scripted environment actions)"],
